@@ -664,6 +664,12 @@ TRF = "rl4co/data/transforms.py"
 EVF = "rl4co/tasks/eval.py"
 CORPUS += [
     # ---------------------------------------------------------------- C15
+    V("C15", "symmetric-reflect-below-2pi", "rl4co/data/transforms.py", 'mask = phi > 2 * math.pi', 'mask = phi < 2 * math.pi', 'C15.b'),
+    V("C15", "symmetric-reflect-always", "rl4co/data/transforms.py", 'mask = phi > 2 * math.pi', 'mask = phi >= 0', 'C15.b'),
+    V("C15", "symmetric-rotation-swapped-at-zero", "rl4co/data/transforms.py", 'x_prime = torch.cos(phi) * x - torch.sin(phi) * y\n    y_prime = torch.sin(phi) * x + torch.cos(phi) * y', 'x_prime = torch.sin(phi) * x + torch.cos(phi) * y\n    y_prime = torch.cos(phi) * x - torch.sin(phi) * y', 'C15.b'),
+    V("C15", "eq-symmetric-rotation-clockwise", "rl4co/data/transforms.py", 'x_prime = torch.cos(phi) * x - torch.sin(phi) * y\n    y_prime = torch.sin(phi) * x + torch.cos(phi) * y', 'x_prime = torch.cos(phi) * x + torch.sin(phi) * y\n    y_prime = torch.cos(phi) * y - torch.sin(phi) * x', None),
+    V("C15", "eq-symmetric-mask-yoda", "rl4co/data/transforms.py", 'mask = phi > 2 * math.pi', 'mask = 2 * math.pi < phi', None),
+    V("C15", "eq-symmetric-mask-ge", "rl4co/data/transforms.py", 'mask = phi > 2 * math.pi', 'mask = phi >= 2 * math.pi', None),
     V("C15", "dihedral-z5-not-permutation", TRF, "z5 = torch.cat((1 - y, x), dim=2)", "z5 = torch.cat((1 - y, y), dim=2)", "C15.a"),
     V("C15", "dihedral-z3-scaled", TRF, "z3 = torch.cat((1 - x, 1 - y), dim=2)", "z3 = torch.cat((1 - 2 * x, 1 - y), dim=2)", "C15.a"),
     V("C15", "dihedral-identity-not-first", TRF, "aug_xy = torch.cat((z0, z1, z2, z3, z4, z5, z6, z7), dim=0)", "aug_xy = torch.cat((z1, z0, z2, z3, z4, z5, z6, z7), dim=0)", "C15.a"),
